@@ -1,5 +1,6 @@
 """C01 - compiled clauses compute exactly Prolog's answers, in order."""
-from .. import gen, progcheck
+from .. import gen, progcheck, par, pyraw
+from ..frame import Check
 PROP = 'C01'
 
 
@@ -7,13 +8,25 @@ def knobs(rnd):
     return gen.Knobs(cut=False, ctrl=False, eq=True, recursive=0.35, nonground_facts=0.25, n_rules=(1, 4))
 
 
+def case(rep, drv, rnd, i, tier):
+    if i % 8 == 7:
+        # tie T2q: the model of Python that gives the printed text its meaning, against CPython
+        return pyraw.case(rep, drv, rnd, i)
+    return progcheck.case(rep, drv, rnd, i, tier)
+
+
 def run(tier):
-    progcheck.run(PROP, tier, knobs, 1200, 40000,
+    n = 1370 if tier == 'quick' else 45000
+    progcheck.configure(PROP, knobs=knobs, sched_mode='all', queries_per_prog=3)
+    with Check(PROP, tier) as chk:
+        par.run_cases(chk.rep, 'harness.checks.c01', 'case', n)
+        chk.finish(
                   rule='stratified random programs (facts incl. non-ground and non-linear ones, rules over calls, =, \\=, true, fail; '
                        'repeated/nested head variables, lists, list pairs, variable-variable aliasing, optional append/member/len) '
                        'x 3-4 queries with unbound, shared, partial and ground arguments; three-way: real engine = model of the '
                        'compiled code = reference semantics; a case is non-trivial when the reference yields >= 1 answer; '
-                       'distinct = distinct (program, query)')
+                       'distinct = distinct (program, query); one case in eight is a generated script of the emitted Python subset (not '
+                       'compiler output) run by CPython and by the model of Python (tie T2q)')
 
 
 replay = progcheck.replay
